@@ -245,6 +245,49 @@ def scan_assumption_keywords():
     return hits
 
 
+# A property whose statement rests on functions that another property puts under contract re-generates that
+# property's obligations (all of them, or the named part) in a further phase of the same run, on an interpreter
+# of its own: a change to such a function then fails a named obligation of THIS property's check as well.
+# (dependency, keyword arguments of its run()).  Kept to what is cheap; the codec proofs (C01/C02, two minutes
+# each) are only re-generated for the classes a property's statement names.
+DEPENDS = {
+    'C03': [('C04', {})],                              # actions must leave the receive buffer alone (frame clause)
+    'C06': [('C02', {'only': ['PresentationDataValueItem', 'PDataTfPDU']})],   # the fragments' wire form
+    'C15': [('C06', {}), ('C07', {})],                 # transport of the request / response: both directions
+    'C16': [('C06', {}), ('C07', {})],
+    'C19': [('C15', {})],                              # one sub-operation = one C-STORE request (storage_scu)
+}
+
+
+def run_dependencies(ctx):
+    own = ctx.pid
+    own_extra = dict(ctx.extra)
+    ctx.phase_replayers = {0: dict(ctx.replayers)}
+    merged_functions = list(own_extra.get('functions', []))
+    for i, (dep, kwargs) in enumerate(DEPENDS.get(own, []), 1):
+        ctx.phase = i
+        ctx.pid = dep                     # loop specifications and pid-specific clauses of the dependency apply
+        ctx.replayers = {}
+        before = len(ctx.obligations)
+        try:
+            dmod = importlib.import_module('pyvc.props.%s' % dep.lower())
+            dmod.run(ctx, **kwargs)
+            ctx.run_explorations()
+        finally:
+            ctx.pid = own
+        ctx.phase_replayers[i] = dict(ctx.replayers)
+        merged_functions += [f for f in ctx.extra.get('functions', []) if f not in merged_functions]
+        ctx.notes.append('dependency phase %d: obligations of %s re-generated (%d)' % (i, dep, len(ctx.obligations) - before))
+    if DEPENDS.get(own):
+        deps_info = [{'property': d, 'part': kw or 'all'} for d, kw in DEPENDS[own]]
+        ctx.extra = dict(ctx.extra)
+        ctx.extra.update(own_extra)
+        ctx.extra['functions'] = merged_functions
+        ctx.extra['dependency_phases'] = deps_info
+        ctx.replayers = ctx.phase_replayers[0]
+        ctx.phase = 0
+
+
 def main(argv=None):
     argv = list(sys.argv[1:] if argv is None else argv)
     if not argv:
@@ -272,6 +315,7 @@ def main(argv=None):
         mod = importlib.import_module('pyvc.props.%s' % pid.lower())
         mod.run(ctx)
         ctx.run_explorations()
+        run_dependencies(ctx)
         if not ctx.obligations:
             raise CheckerError('zero obligations for %s' % pid)
         # obligations produced by the parallel explorer are already solved in the workers;
